@@ -137,9 +137,9 @@ let handle (cmd : string) (args : string list) : string =
       ^ b2s (lambda_atb p toks k0 (nat_of_int (int_of_string l)) (hexs caller) (strs_of fargs))
       ^ b2s (not_nestedb toks k0)
   | "layout", [streams; si; cands; k0; l; caller; fargs; ptab] ->
-      (* does finder_supported_layouts_partial apply to this case?  answer: three bits
-         (stream = layout_toks of the decomposition; earlier streams back up; supported_layoutb)
-         and the index the theorem predicts *)
+      (* does finder_supported_layouts_partial / finder_recognised_layouts apply to this case, cut at the
+         given extents?  answer: four bits (stream = layout_toks of the decomposition; earlier streams
+         back up; supported_layoutb; recognisedb) and the index the theorems predict *)
       let ss = streams_of streams in
       let si = int_of_string si and k0 = int_of_string k0 in
       let toks = List.nth ss si in
@@ -157,10 +157,12 @@ let handle (cmd : string) (args : string list) : string =
          let back = List.for_all (fun ts -> match scan_stream p ["lambda"] ts with ScNoName _ -> true | _ -> false)
              (take si ss) in
          let pred = int_of_nat (seg_start g0 (nat_of_int (List.length (List.concat_map seg_toks gs1)))) in
-         Printf.sprintf "%s%s%s %d" (b2s (layout_toks gs tail = toks)) (b2s back)
+         Printf.sprintf "%s%s%s%s %d" (b2s (layout_toks gs tail = toks)) (b2s back)
            (b2s (supported_layoutb p (nat_of_int (int_of_string l)) (hexs caller) (strs_of fargs) gs1 g0 gs2 tail))
+           (b2s (recognisedb p (nat_of_int (int_of_string l)) (hexs caller) (strs_of fargs) gs1 g0 gs2 tail))
            pred
-       with Failure "nodecomp" -> "--- -1")
+       with Failure "nodecomp" -> "---- -1")
+  | "deflayout", [stream; dsrc] -> b2s (def_layoutb (stream_of stream) (dsrc_of dsrc))
   | _ -> "BADCMD " ^ cmd
 
 let () =
